@@ -196,7 +196,7 @@ def _number(threads):
     return threads
 
 
-def g_crash(rng):
+def g_crash(rng, force_churn=False):
     """C02: a pool that will suffer an abrupt worker death somewhere."""
     kind = "reusable" if rng.random() < 0.4 else "plain"
     kw = {"max_workers": rng.randint(1, 5), "timeout": rng.choice([None, 0.2, 0.1, 10]) if kind == "plain" else rng.choice([0.2, 0.1, 10])}
@@ -214,15 +214,22 @@ def g_crash(rng):
             ops.append({"op": "submit", "ex": "e", "task": t_raise(rng)})
         else:
             ops.append({"op": "sleep", "d": rng.choice([0.001, 0.02, 0.1])})
-    churn = kw["max_workers"] >= 2 and rng.random() < 0.3
+    if force_churn:
+        kw["max_workers"] = max(2, kw["max_workers"])
+        kw["timeout"] = rng.choice([None, 10]) if kind == "plain" else 10
+    churn = force_churn or (kw["max_workers"] >= 2 and rng.random() < 0.3)
     if churn:
         # a surviving worker whose process tree keeps changing (short-lived children) while the pool breaks
         ops.insert(rng.randint(1, 3), {"op": "submit", "ex": "e", "task": {"k": "spawn_loop", "d": 2.5}})
     inline = rng.random()
+    if churn:
+        inline = 0.0  # the pool must break while the churning worker is alive
     if inline < 0.35:
         # the death comes from a task / chaos kill instead of (or in addition to) the injector
-        pos = rng.randint(1, len(ops))
-        if rng.random() < 0.6:
+        pos = rng.randint(1, len(ops)) if not churn else min(len(ops), 6)
+        if churn:
+            ops.insert(pos, {"op": "submit", "ex": "e", "task": t_die(rng, delay=0.6)})
+        elif rng.random() < 0.6:
             ops.insert(pos, {"op": "submit", "ex": "e", "task": t_breaking(rng)})
         else:
             ops.insert(pos, {"op": "kill", "ex": "e", "which": rng.randint(0, 4), "sig": rng.choice(["SIGKILL", "SIGTERM", "SIGSEGV"])})
